@@ -14,6 +14,9 @@ CHECKS = {
  "C02": dict(cat="exploration", tech="deviation-bounded exhaustive exploration of an independent reference PDF writer's choice points (choice recorder): 0 deviations, every single deviation at every choice point, pairs at class level; strict-reader self-check then lopdf load vs abstract document",
    text="Every syntactic freedom of the reference writer is a recorded choice point; all executions with <=1 deviation (instance level) and <=2 deviations (class level; quick runs a seed-rotated quarter of the pairs) over 32 abstract documents are generated, validated by the strict reader and loaded by lopdf, which must return exactly the abstract document.",
    note="trusts the reference writer (harness/src/refpdf.rs) and strict reader as readings of ISO 32000-1 7.2-7.5; hybrid-reference files and freed objects excluded as in the property"),
+ "C04": dict(cat="exploration", tech="exhaustive 1-edit (and 2-edit token-level) mutation neighbourhoods of ~45 small seeds + parametric adversarial families at every arithmetic/allocation/recursion site, nine byte-level entry points, isolated worker processes with time/stack/allocation budgets, lopdf built with overflow checks",
+   text="Every mutant of the stated edit operators at every position of every seed, and every member of the adversarial families, is fed to the real entry point in a worker process; the outcome must be a return (value or error) within 2 s + 1 s/64 KiB, 8 MiB stacks and 64*len+16 MiB per allocation request. Panics, aborts, stack overflows, hangs and oversized requests are violations, confirmed in a fresh worker before being reported. All byte strings cannot be exhausted: the claim is for the enumerated neighbourhoods and families.",
+   note="budgets are harness thresholds (DESIGN §2.5); seeds come from the reference writer, lopdf's writer and the repository assets"),
  "C07": dict(cat="model_checking", tech="explicit-state enumeration of all revision histories up to depth k (tree of history prefixes), two producers: independent reference writer (Prev-chained tables/streams, object streams) and IncrementalDocument replay; every node loaded by the real reader against the model 'newest definition wins'",
    text="All histories of <=2 (quick) / <=3 (thorough) revisions over 3 bases x 24/48 revision kinds x xref styles: the complete file of every history prefix is loaded and must yield, per object number, the newest definition; IncrementalDocument saves must keep the previous bytes as prefix, append only changed objects with a section whose Prev is the previous startxref (checked by the strict reader), leave the previous view untouched and reload to the model.",
    note="trusts reference writer + strict reader; schedule pinned through hook H1 (Sorted) so the verdict cannot depend on thread timing; no freed objects / hybrid files"),
@@ -29,6 +32,9 @@ CHECKS = {
  "C15": dict(cat="exploration", tech="bounded-exhaustive enumeration of ToUnicode CMaps: all sequences of <=2/<=3 definitions from a 170-entry menu x deviation-bounded rendering choices (white-space, line ends, sectioning, hex case) x all single codes and ordered code pairs, against reference 'last definition wins' semantics",
    text="Every CMap of the stated space is rendered to real CMap text, parsed by lopdf through get_font_encoding and decoded with Document::decode_text for every mapped code and every ordered pair of codes; the text must equal the reference semantics (last covering definition wins, range offset added to the last UTF-16 unit, arrays indexed, surrogates combined).",
    note="trusts harness/src/refcmap.rs; 'liberal' PostScript spellings that lopdf's grammar rejects are counted separately and only a mis-decode (not a rejection) would be a violation; code lengths 3-4 spot-checked"),
+ "C17": dict(cat="exploration", tech="bounded-exhaustive enumeration of bookmark forests (all ordered forests with <=3/<=4 nodes x all parent-before-child insertion orders x page assignments incl. zero-page parents x rotating title menu), oracle on the built outline objects and on get_toc before/after save+load",
+   text="Every forest/insertion order/page assignment of the bound is built through add_bookmark, adjust_zero_pages and build_outline; created ids must be fresh, First/Last/Next/Prev/Parent links mutually consistent with insertion order, titles and destinations correct, and get_toc must return the preorder (title, level, page) list, also after save+load in both formats; each case runs twice to show independence from HashMap iteration order.",
+   note="titles are assigned by rotation over a 10-entry menu (distinct per case), not the full product; flat page tree"),
  "C18": dict(cat="exploration", tech="exhaustive enumeration of all 2,879 minute-precision UTC offsets x instant menu x backends x ordered backend pairs against an integer-arithmetic reference formatter; one child process per offset for chrono Local (TZ)",
    text="All offsets -23:59..+23:59 x 12 instants x 5 writer types x 3 reader types: the produced string must equal the reference formatting, all backends agree, parsing returns the same instant (and offset where kept); the specification's short forms must parse.",
    note="trusts harness/src/refdate.rs (self-checked against published epoch anchors and a day-by-day walk); instants are a menu, offsets exhaustive"),
